@@ -4,7 +4,7 @@ import SaModel.Data.SVal
 /-
 Model of `serde_arrow/src/internal/schema/from_samples/mod.rs`.
 
-`absorb o t x` is `x.serialize(TracerSerializer(&mut t))` over the shared serde data model `SVal`: one arm per
+`absorb c o t x` is `x.serialize(TracerSerializer(&mut t))` over the shared serde data model `SVal`: one arm per
 `Serializer` method, the compound serializers (`StructSerializer`, `ListSerializer`, `TupleSerializer`,
 `MapSerializer`) are the helper functions over the value lists.  Structural recursion on the value, the tracer is
 the accumulator.  A failing sample aborts `from_samples`, so partially updated tracers are never observed.
@@ -45,7 +45,7 @@ def ensure_union_variant (t : Tracer) (variant_name : String) (variant_index : N
 
 mutual
 /-- `value.serialize(TracerSerializer(tracer))` -/
-def absorb (o : Options) : Tracer → SVal → R Tracer
+def absorb (c : Code) (o : Options) : Tracer → SVal → R Tracer
   | t, .bool _ => t.ensure_primitive o .boolean
   | t, .int ty _ => t.ensure_number o (intDataType ty)
   | t, .f32 _ => t.ensure_number o .float32
@@ -55,65 +55,65 @@ def absorb (o : Options) : Tracer → SVal → R Tracer
   | t, .str s => t.ensure_primitive_with_strategy o (strType o s) none
   | t, .bytes _ => t.ensure_primitive o .largeBinary
   | t, .none => .ok t.mark_nullable
-  | t, .some v => absorb o t.mark_nullable v
+  | t, .some v => absorb c o t.mark_nullable v
   | t, .unitStruct _ => t.ensure_primitive o .null
-  | t, .newtypeStruct _ v => absorb o t v
+  | t, .newtypeStruct _ v => absorb c o t v
   | t, .map es =>
     if o.map_as_struct then do
-      let t ← t.ensure_struct [] .map
+      let t ← t.ensure_struct c [] .map
       match t with
       | .struct n p nl fs m seen =>
-        let fs ← absorbEntriesAsStruct o p seen fs es
+        let fs ← absorbEntriesAsStruct c o p seen fs es
         .ok (.struct n p nl (fs.end_ seen) m (seen + 1))
       | _ => panic "unreachable: ensure_struct"
     else do
       let t ← t.ensure_map
       match t with
       | .map n p nl k v =>
-        let (k, v) ← absorbEntriesAsMap o k v es
+        let (k, v) ← absorbEntriesAsMap c o k v es
         .ok (.map n p nl k v)
       | _ => panic "unreachable: ensure_map"
   | t, .mapRaw ops =>
     if o.map_as_struct then do
-      let t ← t.ensure_struct [] .map
+      let t ← t.ensure_struct c [] .map
       match t with
       | .struct n p nl fs m seen =>
-        let fs ← absorbOpsAsStruct o p seen fs none ops
+        let fs ← absorbOpsAsStruct c o p seen fs none ops
         .ok (.struct n p nl (fs.end_ seen) m (seen + 1))
       | _ => panic "unreachable: ensure_struct"
     else do
       let t ← t.ensure_map
       match t with
       | .map n p nl k v =>
-        let (k, v) ← absorbOpsAsMap o k v ops
+        let (k, v) ← absorbOpsAsMap c o k v ops
         .ok (.map n p nl k v)
       | _ => panic "unreachable: ensure_map"
   | t, .seq items => do
     let t ← t.ensure_list
     match t with
     | .list n p nl i =>
-      let i ← absorbSeq o i items
+      let i ← absorbSeq c o i items
       .ok (.list n p nl i)
     | _ => panic "unreachable: ensure_list"
   | t, .tuple items => do
-    let t ← t.ensure_tuple items.length
+    let t ← t.ensure_tuple c items.length
     match t with
     | .tuple n p nl ts =>
-      let ts ← absorbTuple o p ts 0 items
+      let ts ← absorbTuple c o p ts 0 items
       .ok (.tuple n p nl ts)
     | _ => panic "unreachable: ensure_tuple"
   | t, .tupleStruct _ items => do
-    let t ← t.ensure_tuple items.length
+    let t ← t.ensure_tuple c items.length
     match t with
     | .tuple n p nl ts =>
-      let ts ← absorbTuple o p ts 0 items
+      let ts ← absorbTuple c o p ts 0 items
       .ok (.tuple n p nl ts)
     | _ => panic "unreachable: ensure_tuple"
   | t, .record _ fields => do
-    let t ← t.ensure_struct [] .struct
+    let t ← t.ensure_struct c [] .struct
     match t with
     | .struct n p nl fs m seen =>
-      let fs ← absorbFields o p seen fs fields
+      let fs ← absorbFields c o p seen fs fields
       .ok (.struct n p nl (fs.end_ seen) m (seen + 1))
     | _ => panic "unreachable: ensure_struct"
   | t, .unitVariant _ idx vn => do
@@ -122,74 +122,74 @@ def absorb (o : Options) : Tracer → SVal → R Tracer
     .ok (.union n p nl (vs.set idx vn vt))
   | t, .newtypeVariant _ idx vn v => do
     let (n, p, nl, vs, vt) ← ensure_union_variant t vn idx
-    let vt ← absorb o vt v
+    let vt ← absorb c o vt v
     .ok (.union n p nl (vs.set idx vn vt))
   | t, .tupleVariant _ idx vn items => do
     let (n, p, nl, vs, vt) ← ensure_union_variant t vn idx
-    let vt ← vt.ensure_tuple items.length
+    let vt ← vt.ensure_tuple c items.length
     match vt with
     | .tuple n' p' nl' ts =>
-      let ts ← absorbTuple o p' ts 0 items
+      let ts ← absorbTuple c o p' ts 0 items
       .ok (.union n p nl (vs.set idx vn (.tuple n' p' nl' ts)))
     | _ => panic "unreachable: ensure_tuple"
   | t, .structVariant _ idx vn fields => do
     let (n, p, nl, vs, vt) ← ensure_union_variant t vn idx
-    let vt ← vt.ensure_struct [] .struct
+    let vt ← vt.ensure_struct c [] .struct
     match vt with
     | .struct n' p' nl' fs m seen =>
-      let fs ← absorbFields o p' seen fs fields
+      let fs ← absorbFields c o p' seen fs fields
       .ok (.union n p nl (vs.set idx vn (.struct n' p' nl' (fs.end_ seen) m (seen + 1))))
     | _ => panic "unreachable: ensure_struct"
 /-- `ListSerializer::serialize_element` for every element -/
-def absorbSeq (o : Options) : Tracer → SVals → R Tracer
+def absorbSeq (c : Code) (o : Options) : Tracer → SVals → R Tracer
   | i, .nil => .ok i
   | i, .cons v r => do
-    let i ← absorb o i v
-    absorbSeq o i r
+    let i ← absorb c o i v
+    absorbSeq c o i r
 /-- `TupleSerializer::serialize_element` / `serialize_field` for every element, `pos` = `self.1` -/
-def absorbTuple (o : Options) (path : String) : Tracers → Nat → SVals → R Tracers
+def absorbTuple (c : Code) (o : Options) (path : String) : Tracers → Nat → SVals → R Tracers
   | ts, _, .nil => .ok ts
   | ts, pos, .cons v r => do
     let ts := field_tracer_grow path pos ts
     match ts.get? pos with
     | some ft =>
-      let ft ← absorb o ft v
-      absorbTuple o path (ts.set pos ft) (pos + 1) r
+      let ft ← absorb c o ft v
+      absorbTuple c o path (ts.set pos ft) (pos + 1) r
     | none => panic "unreachable: field_tracer"
 /-- `StructSerializer::serialize_field` for every field (the caller runs `end`) -/
-def absorbFields (o : Options) (path : String) (seen : Nat) : TFields → SFields → R TFields
+def absorbFields (c : Code) (o : Options) (path : String) (seen : Nat) : TFields → SFields → R TFields
   | fs, .nil => .ok fs
   | fs, .cons key _ v r => do
     let (idx, fs) := ensure_field path seen fs key
     match fs.get? idx with
     | some ft =>
-      let ft ← absorb o ft v
-      absorbFields o path seen (fs.set idx ft) r
+      let ft ← absorb c o ft v
+      absorbFields c o path seen (fs.set idx ft) r
     | none => panic "unreachable: get_field_tracer_mut"
 /-- `MapSerializer::AsStruct`: `serialize_key` then `serialize_value` for every entry -/
-def absorbEntriesAsStruct (o : Options) (path : String) (seen : Nat) : TFields → SEntries → R TFields
+def absorbEntriesAsStruct (c : Code) (o : Options) (path : String) (seen : Nat) : TFields → SEntries → R TFields
   | fs, .nil => .ok fs
   | fs, .cons k v r => do
     let key ← serializeToString k
     let (idx, fs) := ensure_field path seen fs key
     match fs.get? idx with
     | some ft =>
-      let ft ← absorb o ft v
-      absorbEntriesAsStruct o path seen (fs.set idx ft) r
+      let ft ← absorb c o ft v
+      absorbEntriesAsStruct c o path seen (fs.set idx ft) r
     | none => panic "unreachable: get_field_tracer_mut"
 /-- `MapSerializer::AsMap` -/
-def absorbEntriesAsMap (o : Options) : Tracer → Tracer → SEntries → R (Tracer × Tracer)
+def absorbEntriesAsMap (c : Code) (o : Options) : Tracer → Tracer → SEntries → R (Tracer × Tracer)
   | kt, vt, .nil => .ok (kt, vt)
   | kt, vt, .cons k v r => do
-    let kt ← absorb o kt k
-    let vt ← absorb o vt v
-    absorbEntriesAsMap o kt vt r
+    let kt ← absorb c o kt k
+    let vt ← absorb c o vt v
+    absorbEntriesAsMap c o kt vt r
 /-- `MapSerializer::AsStruct` under an arbitrary key/value call stream; `next_key` is the pending key -/
-def absorbOpsAsStruct (o : Options) (path : String) (seen : Nat) : TFields → Option String → SMapOps → R TFields
+def absorbOpsAsStruct (c : Code) (o : Options) (path : String) (seen : Nat) : TFields → Option String → SMapOps → R TFields
   | fs, _, .nil => .ok fs
   | fs, _, .key k r => do
     let key ← serializeToString k
-    absorbOpsAsStruct o path seen fs (some key) r
+    absorbOpsAsStruct c o path seen fs (some key) r
   | fs, next_key, .value v r =>
     match next_key with
     | none => fail "serialize_value called without prior call to serialize_key"
@@ -197,44 +197,47 @@ def absorbOpsAsStruct (o : Options) (path : String) (seen : Nat) : TFields → O
       let (idx, fs) := ensure_field path seen fs key
       match fs.get? idx with
       | some ft =>
-        let ft ← absorb o ft v
-        absorbOpsAsStruct o path seen (fs.set idx ft) none r
+        let ft ← absorb c o ft v
+        absorbOpsAsStruct c o path seen (fs.set idx ft) none r
       | none => panic "unreachable: get_field_tracer_mut"
-def absorbOpsAsMap (o : Options) : Tracer → Tracer → SMapOps → R (Tracer × Tracer)
+def absorbOpsAsMap (c : Code) (o : Options) : Tracer → Tracer → SMapOps → R (Tracer × Tracer)
   | kt, vt, .nil => .ok (kt, vt)
   | kt, vt, .key k r => do
-    let kt ← absorb o kt k
-    absorbOpsAsMap o kt vt r
+    let kt ← absorb c o kt k
+    absorbOpsAsMap c o kt vt r
   | kt, vt, .value v r => do
-    let vt ← absorb o vt v
-    absorbOpsAsMap o kt vt r
+    let vt ← absorb c o vt v
+    absorbOpsAsMap c o kt vt r
 end
 
 /-- the element loop of `OuterSequenceSerializer` -/
-def absorbAll (o : Options) : Tracer → List SVal → R Tracer
+def absorbAll (c : Code) (o : Options) : Tracer → List SVal → R Tracer
   | t, [] => .ok t
   | t, x :: xs => do
-    let t ← absorb o t x
-    absorbAll o t xs
+    let t ← absorb c o t x
+    absorbAll c o t xs
 
 /-- `Tracer::from_samples` for an outer sequence with elements `xs` -/
-def fromSamplesTracer (o : Options) (xs : List SVal) : R Tracer := do
-  let t ← absorbAll o (Tracer.new "$" "$") xs
+def fromSamplesTracer (c : Code) (o : Options) (xs : List SVal) : R Tracer := do
+  let t ← absorbAll c o (Tracer.new "$" "$") xs
   let t ← t.finish
   t.check o
   .ok t
 
 /-- `SerdeArrowSchema::from_samples(xs, o)` -/
-def fromSamples (o : Options) (xs : List SVal) : R (List Field) := do
-  let t ← fromSamplesTracer o xs
+def fromSamples (c : Code) (o : Options) (xs : List SVal) : R (List Field) := do
+  let t ← fromSamplesTracer c o xs
   t.to_schema o
 
 /-- `OuterSequenceSerializer`: only `seq`, `tuple` and `tuple_variant` are accepted at the top -/
-def fromSamplesTop (o : Options) : SVal → R (List Field)
-  | .seq items => fromSamples o items.toList
-  | .tuple items => fromSamples o items.toList
-  | .tupleVariant _ _ _ items => fromSamples o items.toList
+def fromSamplesTop (c : Code) (o : Options) : SVal → R (List Field)
+  | .seq items => fromSamples c o items.toList
+  | .tuple items => fromSamples c o items.toList
+  | .tupleVariant _ _ _ items => fromSamples c o items.toList
   | _ => fail "Cannot trace non-sequences with `from_samples`"
+
+/-- the pinned code (before the `fix:` commits) -/
+def fromSamplesPinned (o : Options) (xs : List SVal) : R (List Field) := fromSamples .pinned o xs
 
 /-- `Items(xs)`: every element wrapped as `Item { item: x }` -/
 def itemsOf (xs : List SVal) : List SVal :=
